@@ -188,6 +188,7 @@ class Instance:
     """An object of a class of the analysed module: attribute dictionary + class model (methods interpreted from the ast)."""
 
     _microeval = True
+    _count = 0
 
     def __init__(self, interp: "Interp", module: str, cls: str, attrs: Optional[Dict[str, Any]] = None, over: Optional[Dict[str, Any]] = None):
         object.__setattr__(self, "_interp", interp)
@@ -195,6 +196,8 @@ class Instance:
         object.__setattr__(self, "_cls", cls)
         object.__setattr__(self, "_attrs", dict(attrs or {}))
         object.__setattr__(self, "_over", dict(over or {}))
+        Instance._count += 1
+        object.__setattr__(self, "_serial", Instance._count)  # identity hash without memory addresses (deterministic runs)
 
     # python protocols used by builtins (sorted, in, join ...) are routed to the class model
     def _dunder(self, name: str, *args, default=NotImplemented):
@@ -226,7 +229,7 @@ class Instance:
             return hash(tuple(self._attrs.get(f) for f in m.field_names()))
         if m.has("__eq__"):
             raise TypeError(f"unhashable type: '{self._cls}'")
-        return id(self) >> 4
+        return self.__dict__["_serial"]
 
     def __lt__(self, other):
         return self._dunder("__lt__", other)
@@ -291,7 +294,7 @@ class Instance:
         self._attrs[k] = v
 
     def __getattr__(self, k):  # used by foreign python code only; the interpreter goes through Interp.getattr_
-        if k.startswith("_") and k in ("_interp", "_module", "_cls", "_attrs", "_over"):
+        if k.startswith("_") and k in ("_interp", "_module", "_cls", "_attrs", "_over", "_serial"):
             raise AttributeError(k)
         return self._interp.getattr_(self, k, None)
 
